@@ -4,6 +4,7 @@ stay functional, and the lifecycle fields are touched by `enter` / `exit` only.
 -/
 import AsphaltModel.Context
 import AsphaltProofs.Lemmas.Assoc
+import AsphaltProofs.Lemmas.ExitWith
 
 namespace Asphalt
 
@@ -443,9 +444,9 @@ theorem step_enter_WKeeps (w : World) (t : TaskId) (c : CtxId) :
         · exact h1
         · next px hpx => exact h1.trans (WKeeps.setCtx hpx (Keeps.of_tables rfl rfl))
 
-theorem step_exit_WKeeps (w : World) (t : TaskId) (c : CtxId) (be : BlockEnd) :
-    WKeeps w (step w (.exit t c be)).1 := by
-  simp only [step]
+theorem exitWith_WKeeps (w : World) (t : TaskId) (c : CtxId) (be : BlockEnd)
+    (stk : List Cb → List Cb) : WKeeps w (exitWith w t c be stk).1 := by
+  simp only [exitWith]
   split
   · exact WKeeps.refl _
   · next x hx =>
@@ -456,8 +457,16 @@ theorem step_exit_WKeeps (w : World) (t : TaskId) (c : CtxId) (be : BlockEnd) :
       refine WKeeps.trans ?_ (WKeeps.setCur _ _ _)
       refine WKeeps.setCtx hx ?_
       have h1 : Keeps x { x with state := .closing, tds := [] } := Keeps.of_tables rfl rfl
-      have h2 := (runTeardown_ext c (w.curOf t) be (effStack be x.tds) { x with state := .closing, tds := [] }).keeps
+      have h2 := (runTeardown_ext c (w.curOf t) be (stk x.tds) { x with state := .closing, tds := [] }).keeps
       exact (h1.trans h2).trans (Keeps.of_tables rfl rfl)
+
+theorem step_exit_WKeeps (w : World) (t : TaskId) (c : CtxId) (be : BlockEnd) :
+    WKeeps w (step w (.exit t c be)).1 := by
+  rw [step_exit_exitWith]; exact exitWith_WKeeps w t c be _
+
+theorem step_exitMid_WKeeps (w : World) (t : TaskId) (c : CtxId) (be : BlockEnd) (k : Nat) :
+    WKeeps w (step w (.exitMid t c be k)).1 := by
+  rw [step_exitMid_exitWith]; exact exitWith_WKeeps w t c be _
 
 theorem step_inject_WKeeps (w : World) (t : TaskId) (isAsync : Bool) (deps : List Dep)
     (badUnion : Bool) : WKeeps w (step w (.inject t isAsync deps badUnion)).1 := by
@@ -487,6 +496,7 @@ theorem step_WKeeps (w : World) (op : Op) (hnew : ∀ t c p, op ≠ .new t c p) 
   | new t c p => exact absurd rfl (hnew t c p)
   | enter t c => exact step_enter_WKeeps w t c
   | exit t c be => exact step_exit_WKeeps w t c be
+  | exitMid t c be k => exact step_exitMid_WKeeps w t c be k
   | add c a => exact WKeeps.onCtx _ _ _ (fun x => (ctxAdd_ext c x a).keeps)
   | addFactory c a => exact WKeeps.onCtx _ _ _ (fun x => (ctxAddFactory_ext c x a).keeps)
   | getNowait c k opt => exact WKeeps.onCtx _ _ _ (fun x => (ctxGetNowait_ext c x k opt).keeps)
